@@ -848,8 +848,73 @@ class Exec:
             del st.store.m[k]
         return ret
 
+    # ---------- Option combinators and closures ----------
+    def option_cases(self, x, on_some, on_none):
+        """case split on an Option-valued term"""
+        def leaf(v):
+            if isinstance(v, tuple) and v[0] == "adt" and v[2][1] == "Some":
+                return on_some(v[3][0][1])
+            if isinstance(v, tuple) and v[0] == "adt" and v[2][1] == "None":
+                return on_none()
+            payload = self.project(v, ("@Some", "0"), None)
+            return mk_gamma(("==", cu(0), ("discr", v)), on_none(), on_some(payload))
+        return map_leaves(x, leaf)
+
+    def call_closure(self, st, clo, call_args):
+        if not (isinstance(clo, tuple) and clo[0] == "closure"):
+            raise Unsupported("call of a non-closure value")
+        g = self.F.fn_by_path.get(clo[1])
+        if g is None:
+            raise Unsupported("closure body not found: %s" % clo[1])
+        env = ("adt", "closure", (0, ""), tuple((str(i), v) for i, v in enumerate(clo[2])), False)
+        first = env
+        if g.locals[1]["ty"].get("k") == "ref":
+            self.nclo = getattr(self, "nclo", 0) + 1
+            root = ("L", -self.nclo, 0)
+            st.store.write((root,), env)
+            first = ("ref", (root,), None)
+        return self.inline(st, g, [first] + list(call_args))
+
+    def option_combinator(self, st, which, args, t):
+        some = lambda v: ("adt", "std::option::Option", (1, "Some"), (("0", v),), True)
+        none = ("adt", "std::option::Option", (0, "None"), (), True)
+        if which in ("replace", "take", "get_or_insert"):
+            a0 = args[0]
+            if not (isinstance(a0, tuple) and a0[0] == "ref" and a0[2] is None):
+                return None
+            old = self.read_path(st, a0[1])
+            if which == "replace":
+                st.store.write(a0[1], some(args[1]))
+                return old
+            if which == "take":
+                st.store.write(a0[1], none)
+                return old
+            return None
+        x = args[0]
+        if which == "unwrap_or":
+            return self.option_cases(x, lambda v: v, lambda: args[1])
+        if which == "unwrap_or_default":
+            return self.option_cases(x, lambda v: v, lambda: cf(0.0))
+        if which == "unwrap_or_else":
+            return self.option_cases(x, lambda v: v, lambda: self.call_closure(st, args[1], []))
+        if which == "map_or":
+            return self.option_cases(x, lambda v: self.call_closure(st, args[2], [v]), lambda: args[1])
+        if which == "map_or_else":
+            return self.option_cases(x, lambda v: self.call_closure(st, args[2], [v]), lambda: self.call_closure(st, args[1], []))
+        if which == "map":
+            return self.option_cases(x, lambda v: some(self.call_closure(st, args[1], [v])), lambda: none)
+        if which in ("ok_or", "ok_or_else"):
+            ok = lambda v: ("adt", "std::result::Result", (0, "Ok"), (("0", v),), True)
+            err = lambda e: ("adt", "std::result::Result", (1, "Err"), (("0", e),), True)
+            if which == "ok_or":
+                return self.option_cases(x, ok, lambda: err(args[1]))
+            return self.option_cases(x, ok, lambda: err(self.call_closure(st, args[1], [])))
+        if which == "is_some_and":
+            return self.option_cases(x, lambda v: self.call_closure(st, args[1], [v]), lambda: FALSE)
+        return None
+
     def std_call(self, st, callee, name, args, t):
-        n = name
+        n = callees.strip_turbofish(name)
         dv = [self.deref_val(st, a) for a in args]
         if re.search(r"<impl f64>::abs$", n):
             return ("abs", dv[0])
@@ -866,7 +931,20 @@ class Exec:
         if re.search(r"<impl f64>::is_sign_negative$", n):
             return mk_not(("sgnpos", dv[0]))
         if re.search(r"<impl f64>::is_nan$", n):
+            if is_const(dv[0]):
+                import math
+                return TRUE if math.isnan(dv[0][2]) else FALSE
             return ("isnan", dv[0])
+        if re.search(r"<impl f64>::is_finite$", n):
+            if is_const(dv[0]):
+                import math
+                return TRUE if math.isfinite(dv[0][2]) else FALSE
+            return ("isfinite", dv[0])
+        if re.search(r"<impl f64>::is_infinite$", n):
+            if is_const(dv[0]):
+                import math
+                return TRUE if math.isinf(dv[0][2]) else FALSE
+            return ("isinf", dv[0])
         if re.search(r"<impl f64>::mul_add$", n):
             return fold("+", fold("*", dv[0], dv[1]), dv[2])
         if re.search(r"<impl f64>::powi$", n) and is_const(dv[1]) and 0 <= dv[1][2] <= 4:
@@ -879,6 +957,12 @@ class Exec:
             if m.group(1) == "Neg":
                 return ("neg", dv[0])
             return fold(BINOPS[m.group(1)], dv[0], dv[1])
+        m = re.search(r"cmp::Ord(?:>)?::(min|max)$|cmp::(min|max)$|<impl (?:usize|u\d+|i\d+|isize)>::(min|max)$|cmp::impls::<impl (?:std|core)::cmp::Ord for (?:usize|u\d+|i\d+|isize)>::(min|max)$", n)
+        if m and len(dv) == 2:
+            which = [g for g in m.groups() if g][0]
+            if is_const(dv[0]) and is_const(dv[1]):
+                return dv[0] if ((dv[0][2] <= dv[1][2]) == (which == "min")) else dv[1]
+            return (which,) + tuple(sorted([dv[0], dv[1]], key=repr))
         m = re.search(r"cmp::(?:PartialOrd|PartialEq)(?:<.*>)?(?:>)?::(lt|le|gt|ge|eq|ne)$", n)
         if m and len(dv) == 2:
             return fold({"lt": "<", "le": "<=", "gt": ">", "ge": ">=", "eq": "==", "ne": "!="}[m.group(1)], dv[0], dv[1])
@@ -900,6 +984,11 @@ class Exec:
                     return x
                 return ("from_residual", x)
             return map_leaves(args[0], fr_)
+        m = re.search(r"Option(?:::<.*>)?::(replace|take|unwrap_or|unwrap_or_default|unwrap_or_else|map_or|map_or_else|map|is_some_and|get_or_insert|ok_or|ok_or_else)$", n)
+        if m:
+            r_ = self.option_combinator(st, m.group(1), args, t)
+            if r_ is not None:
+                return r_
         m = re.search(r"(Result|Option)::<.*>::(unwrap|expect)$", n)
         if m:
             def uw(x):
